@@ -89,6 +89,17 @@ pub fn obs(sk: &HllSketch) -> Value {
     json!({"b": ranks(&s), "pos": s[3] > 0.0, "emp": sk.is_empty(), "len": sk.serialize().len(), "rel": rel6(&s), "e3": est1000(&s)})
 }
 
+/// x * 2^shift as four 16-bit limbs when that is an integer below 2^63 (else four times 65535 + marker)
+pub fn dyadic_limbs(x: f64, shift: i32) -> Value {
+    let y = x * 2f64.powi(shift);
+    if y.is_finite() && y >= 0.0 && y.fract() == 0.0 && y < 9.0e18 {
+        let u = y as u64;
+        json!([u & 0xffff, (u >> 16) & 0xffff, (u >> 32) & 0xffff, (u >> 48) & 0xffff])
+    } else {
+        json!([70000, 70000, 70000, 70000])
+    }
+}
+
 /// the estimate in thousandths (while it is small enough for the specification's integers)
 pub fn est1000(s: &[f64; 7]) -> i64 {
     if s[3].is_finite() && s[3] >= 0.0 && s[3] < 2.0e6 { (s[3] * 1000.0).round() as i64 } else { -1 }
@@ -249,7 +260,13 @@ impl<'a> Sess<'a> {
             return;
         }
         let sk = self.sk[id].as_ref().unwrap();
-        let mut v = json!({"op":"Chk","id":id,"st":full(&sk.verif_state()),"o":obs(sk)});
+        let vst = sk.verif_state();
+        let mut v = json!({"op":"Chk","id":id,"st":full(&vst),"o":obs(sk)});
+        if vst.mode == 2 {
+            // kxq0 * 2^31 and kxq1 * 2^63 are integers when the fields are the sums of 2^-register they should be
+            v["kx0"] = dyadic_limbs(vst.kxq0, 31);
+            v["kx1"] = dyadic_limbs(vst.kxq1, 63);
+        }
         if sk.lg_config_k() <= 10 {
             let f = crate::fam_hllfmt::own_image_fields(sk);
             v["img"] = f["img"].clone();
